@@ -55,6 +55,10 @@ FLOORS = {'flat': 0.80, 'chain': 0.06, 'rhs=neg-number': 0.06, 'rhs=neg-array-ce
 
 BINOPS = {'add': operator.add, 'sub': operator.sub, 'mul': operator.mul,
           'div': operator.truediv}
+# the augmented forms (x += y ...): Dataset defines no in-place operators, so they mean
+# x = x + y -- a new dataset, the object x was bound to is an operand like any other
+AUGOPS = {'add': operator.iadd, 'sub': operator.isub, 'mul': operator.imul,
+          'div': operator.itruediv}
 
 # --------------------------------------------------------------------------
 # generation
@@ -138,6 +142,8 @@ def _op(draw, chain):
     opd = {'op': kind, 'l': draw(st.integers(0, 7)) if chain else 0}
     if kind in BINOPS:
         opd['rhs'] = draw(_rhs(kind, chain))
+        if draw(st.integers(0, 4)) == 2:
+            opd['aug'] = True
     elif kind == 'mask':
         opd['m'] = draw(_MASK)
     elif kind == 'mutate':
@@ -291,7 +297,7 @@ class _Run:
         kind = opd['op']
         lhs = self.pool[opd['l'] % len(self.pool)]
         if kind in BINOPS:
-            self.binop(num, kind, lhs, opd['rhs'])
+            self.binop(num, kind, lhs, opd['rhs'], bool(opd.get('aug')))
         elif kind == 'copy':
             self.copy(num, lhs)
         elif kind == 'mask':
@@ -374,7 +380,7 @@ class _Run:
             return 'number', int(rhs['c']), None
         return 'number', float(rhs['c']), None
 
-    def binop(self, num, kind, lhs, rhs):
+    def binop(self, num, kind, lhs, rhs, aug=False):
         rclass, other, rlive = self.make_rhs(lhs, rhs)
         lval, lmask = _cells(lhs.ds.value)
         lerr, lemask = _cells(lhs.ds.error)
@@ -418,8 +424,10 @@ class _Run:
             self.aux.append([f'ndarray operand of step {num}', other, other.tobytes()])
         feat = f'op={opname}/rhs={rclass}'
         self.pool.extend(extra)      # a fresh right operand stays alive from now on
+        if aug:
+            self.labels.add('augmented-assignment')
         try:
-            res = BINOPS[kind](lhs.ds, other)
+            res = (AUGOPS if aug else BINOPS)[kind](lhs.ds, other)
         except Exception as exc:   # the property promises a dataset for these operands
             self.out.failures.append(exc_failure('C08/op_raises', exc, feat))
             self.operands_unchanged(num, opname, feat)
